@@ -38,6 +38,18 @@ type machine struct {
 	eofF    string
 	run     *ssa.Function // goroutine body, if the machine is a producer
 	chanF   string
+	// states named by the constants of an enumerated type and dispatched by a switch in a
+	// driver loop: constant -> the method that handles that state (other constants stop)
+	enumStates map[int64]*ssa.Function
+}
+
+// isStop: the returned next-state value t ends the machine.
+func (m *machine) isStop(t *T) bool {
+	t = stripConv(t)
+	if t.Op == "nil" {
+		return true
+	}
+	return m.enumStates != nil && t.IsConst() && m.enumStates[t.C] == nil
 }
 
 var machinesMemo []*machine
@@ -57,12 +69,32 @@ func machines(w *World) []*machine {
 			continue
 		}
 		sig, ok := nt.Underlying().(*types.Signature)
-		if !ok || sig.Params().Len() != 1 || sig.Results().Len() != 1 || !types.Identical(sig.Results().At(0).Type(), nt) {
+		// a state function returns the next state first (possibly with more: an error, a flag)
+		if !ok || sig.Params().Len() > 1 || sig.Results().Len() < 1 || !types.Identical(sig.Results().At(0).Type(), nt) {
 			continue
 		}
-		pt, ok := sig.Params().At(0).Type().(*types.Pointer)
-		if !ok {
-			continue
+		var pt *types.Pointer
+		methodStates := sig.Params().Len() == 0
+		if methodStates {
+			// states are methods bound to the machine (type S func() S): the machine is the
+			// receiver type of the methods that return S
+			for _, fn := range libFuncs(w) {
+				fs := fn.Signature
+				if fs.Recv() != nil && fs.Params().Len() == 0 && fs.Results().Len() >= 1 && types.Identical(fs.Results().At(0).Type(), nt) {
+					if p, ok := fs.Recv().Type().(*types.Pointer); ok {
+						pt = p
+					}
+				}
+			}
+			if pt == nil {
+				continue
+			}
+		} else {
+			p, ok := sig.Params().At(0).Type().(*types.Pointer)
+			if !ok {
+				continue
+			}
+			pt = p
 		}
 		rt, ok := pt.Elem().(*types.Named)
 		if !ok {
@@ -97,11 +129,15 @@ func machines(w *World) []*machine {
 		}
 		for _, fn := range libFuncs(w) {
 			s := fn.Signature
-			if s.Recv() == nil && s.Params().Len() == 1 && s.Results().Len() == 1 && types.Identical(s.Params().At(0).Type(), pt) && types.Identical(s.Results().At(0).Type(), nt) {
+			if s.Recv() == nil && s.Params().Len() == 1 && s.Results().Len() >= 1 && types.Identical(s.Params().At(0).Type(), pt) && types.Identical(s.Results().At(0).Type(), nt) {
 				m.states = append(m.states, fn)
 			}
+			if methodStates && s.Recv() != nil && types.Identical(s.Recv().Type(), pt) && s.Params().Len() == 0 && s.Results().Len() >= 1 && types.Identical(s.Results().At(0).Type(), nt) {
+				m.states = append(m.states, fn)
+				continue
+			}
 			if s.Recv() != nil && isRecv(s.Recv().Type()) {
-				if s.Results().Len() == 1 && types.Identical(s.Results().At(0).Type(), nt) {
+				if s.Results().Len() >= 1 && types.Identical(s.Results().At(0).Type(), nt) {
 					m.helpers = append(m.helpers, fn)
 				}
 				// consuming primitive: pulls from the underlying reader
@@ -164,6 +200,7 @@ func machines(w *World) []*machine {
 			machinesMemo = append(machinesMemo, m)
 		}
 	}
+	machinesMemo = append(machinesMemo, enumMachines(w)...)
 	sort.Slice(machinesMemo, func(i, j int) bool { return machinesMemo[i].name < machinesMemo[j].name })
 	for _, m := range machinesMemo {
 		w.MarkBoundary("state function of machine "+m.name, m.states...)
@@ -421,6 +458,12 @@ func (m *machine) transitions(w *World, fn *ssa.Function) ([]*transition, string
 				out = append(out, base)
 			case r.Op == "fn":
 				base.to = r.S
+				out = append(out, base)
+			case m.enumStates != nil && r.IsConst():
+				base.to = ""
+				if f := m.enumStates[r.C]; f != nil {
+					base.to = fnKey(f)
+				}
 				out = append(out, base)
 			case r.Op == "call":
 				var h *ssa.Function
@@ -1693,7 +1736,7 @@ func carriedAndTested(w *World, fn *ssa.Function, paths []*Path, p *Path, t *T) 
 		}
 		lvKey := (&T{Op: "loopvar", S: phis[i].Comment, C: be.Res.C, Ty: phis[i].Type()}).Key()
 		for _, q := range paths {
-			if q.End != "ret" || len(q.Ret) != 1 || stripConv(q.Ret[0]).Op != "nil" {
+			if q.End != "ret" || len(q.Ret) < 1 || stripConv(q.Ret[0]).Op != "nil" {
 				continue
 			}
 			for _, cd := range q.Conds {
@@ -1704,4 +1747,152 @@ func carriedAndTested(w *World, fn *ssa.Function, paths []*Path, p *Path, t *T) 
 		}
 	}
 	return false
+}
+
+// enumMachines: state machines whose states are the constants of an
+// enumerated type, each handled by a method of the machine returning the next
+// constant, dispatched by a switch inside a driver loop.
+func enumMachines(w *World) []*machine {
+	var out []*machine
+	sc := w.Lib.Types.Scope()
+	for _, n := range sc.Names() {
+		tn, ok := sc.Lookup(n).(*types.TypeName)
+		if !ok {
+			continue
+		}
+		nt, ok := tn.Type().(*types.Named)
+		if !ok {
+			continue
+		}
+		if _, isEnum := w.enumDomain(nt); !isEnum {
+			continue
+		}
+		// methods (no parameters) returning nt first, grouped by receiver
+		byRecv := map[string][]*ssa.Function{}
+		recvOf := map[string]*types.Named{}
+		for _, fn := range libFuncs(w) {
+			fs := fn.Signature
+			if fs.Recv() == nil || fs.Params().Len() != 0 || fs.Results().Len() < 1 || !types.Identical(fs.Results().At(0).Type(), nt) {
+				continue
+			}
+			if p, ok := fs.Recv().Type().(*types.Pointer); ok {
+				if rt, ok := p.Elem().(*types.Named); ok {
+					byRecv[rt.Obj().Name()] = append(byRecv[rt.Obj().Name()], fn)
+					recvOf[rt.Obj().Name()] = rt
+				}
+			}
+		}
+		for rn, states := range byRecv {
+			if len(states) < 2 {
+				continue
+			}
+			rt := recvOf[rn]
+			m := &machine{name: rn, stateT: nt, recvT: rt, states: states, enumStates: map[int64]*ssa.Function{}}
+			isState := map[*ssa.Function]bool{}
+			for _, f := range states {
+				isState[f] = true
+			}
+			// the driver: a function that calls the state methods, each under "state == constant"
+			// (the state methods must stay calls while the driver is explored)
+			w.MarkBoundary("state method of machine "+rn, states...)
+			for _, fn := range libFuncs(w) {
+				if isState[fn] {
+					continue
+				}
+				n := 0
+				for _, b := range fn.Blocks {
+					for _, in := range b.Instrs {
+						if c, ok := in.(*ssa.Call); ok && isState[c.Call.StaticCallee()] {
+							n++
+						}
+					}
+				}
+				if n < 2 {
+					continue
+				}
+				ps, err := w.Paths(fn)
+				if err != nil {
+					continue
+				}
+				for _, p := range ps {
+					for _, e := range p.Events {
+						if e.Kind != "call" || !isState[e.Callee] {
+							continue
+						}
+						for k, set := range p.Sets {
+							if types.Identical(p.SetTerms[k].Ty, nt) && set != 0 && set&(set-1) == 0 {
+								v := int64(0)
+								for x := set; x > 1; x >>= 1 {
+									v++
+								}
+								m.enumStates[v] = e.Callee
+							}
+						}
+					}
+				}
+			}
+			if len(m.enumStates) < 2 {
+				continue
+			}
+			// consuming primitive, look-ahead field: as for the other machines
+			pt := types.NewPointer(rt)
+			var flat []*types.Var
+			recvTypes := []types.Type{pt}
+			var flatten func(st *types.Struct)
+			flatten = func(st *types.Struct) {
+				for i := 0; i < st.NumFields(); i++ {
+					f := st.Field(i)
+					if embeddedStruct(f) {
+						recvTypes = append(recvTypes, types.NewPointer(f.Type()))
+						flatten(f.Type().Underlying().(*types.Struct))
+						continue
+					}
+					flat = append(flat, f)
+				}
+			}
+			flatten(rt.Underlying().(*types.Struct))
+			for _, fn := range libFuncs(w) {
+				if fn.Signature.Recv() == nil {
+					continue
+				}
+				mine := false
+				for _, r := range recvTypes {
+					if types.Identical(fn.Signature.Recv().Type(), r) {
+						mine = true
+					}
+				}
+				if !mine {
+					continue
+				}
+				for _, b := range fn.Blocks {
+					for _, in := range b.Instrs {
+						if ci, ok := in.(ssa.CallInstruction); ok && ci.Common().IsInvoke() && ci.Common().Method.Name() == "NextToken" {
+							m.next = fn
+						}
+					}
+				}
+			}
+			for _, f := range flat {
+				if typeName(f.Type()) == "token" && m.tokF == "" {
+					m.tokF = f.Name()
+				}
+			}
+			if m.next != nil {
+				ps, _ := w.Paths(m.next)
+				for _, p := range ps {
+					if len(p.Conds) > 0 {
+						a := stripConv(p.Conds[0].Atom)
+						if a.Op == "sel" && a.A[0].Op == "deref" {
+							m.eofF = a.S
+						}
+					}
+				}
+			}
+			sort.Slice(m.states, func(i, j int) bool { return m.states[i].Name() < m.states[j].Name() })
+			if m.next != nil && m.tokF != "" {
+				out = append(out, m)
+			}
+		}
+	}
+	return out
 }
